@@ -17,6 +17,7 @@
 package authenticators
 
 import (
+	"bytes"
 	"context"
 	"crypto/sha256"
 	"crypto/x509"
@@ -537,11 +538,12 @@ func (a *jwtAuthenticator) verifyTokenWithKey(
 	}
 
 	var (
+		rawClaims json.RawMessage
 		mapClaims map[string]interface{}
 		claims    oauth2.Claims
 	)
 
-	if err := token.Claims(key, &mapClaims, &claims); err != nil {
+	if err := token.Claims(key, &rawClaims, &mapClaims, &claims); err != nil {
 		return nil, errorchain.
 			NewWithMessage(heimdall.ErrAuthentication, "failed to verify JWT signature").
 			WithErrorContext(a).
@@ -551,6 +553,18 @@ func (a *jwtAuthenticator) verifyTokenWithKey(
 	if err := claims.Validate(*assertions); err != nil {
 		return nil, errorchain.
 			NewWithMessage(heimdall.ErrAuthentication, "access token does not satisfy assertion conditions").
+			WithErrorContext(a).
+			CausedBy(err)
+	}
+
+	// numbers are taken over as written in the verified payload. Decoded into float64, integers
+	// beyond 2^53 (e.g. numeric subject identifiers) would be rounded to a different value
+	decoder := json.NewDecoder(bytes.NewReader(rawClaims))
+	decoder.UseNumber()
+
+	if err := decoder.Decode(&mapClaims); err != nil {
+		return nil, errorchain.
+			NewWithMessage(heimdall.ErrInternal, "failed to deserialize jwt payload").
 			WithErrorContext(a).
 			CausedBy(err)
 	}
